@@ -120,7 +120,9 @@ pub fn is_vint(val: u64) -> bool {
         return false;
     }
 
-    (val.ilog2() % 7) == 0
+    // A well formed id occupies exactly as many bytes as its length marker announces (1 to 8)
+    let marker_bit = val.ilog2();
+    marker_bit % 7 == 0 && (1..=8).contains(&(marker_bit / 7))
 }
 
 ///
